@@ -68,7 +68,7 @@ def client_cases(draw):
         "mode": draw(st.sampled_from(dc.MODES)),
         "calls": draw(st.lists(st.tuples(
             st.sampled_from(["notify", "notify", "call"]),
-            st.sampled_from(["echo", "boom", "nope", "two", "none", "zero"]),
+            st.sampled_from(["echo", "boom", "nope", "two", "none", "zero", "falsy", "ident"]),
             st.one_of(st.lists(gen.json_values(4), max_size=3), st.dictionaries(st.sampled_from(["a", "b"]), gen.json_values(4), max_size=2))),
             min_size=1, max_size=5)),
         "batch": draw(st.booleans()),
@@ -141,6 +141,18 @@ def oracle_client(case):
     want = [(n, gen.norm(a), gen.norm(k)) for (n, a, k) in want_log]
     if got != want:
         fail("C04/notification-executions", "server-side invocations %r, expected %r" % (got[:8], want[:8]))
+    # a peer that answers a notification all the same (result, null result, nothing): the call returns None
+    from vlib.loopback import CannedTransport
+    ctr = CannedTransport(ccfg)
+    cproxy = J.ServerProxy("http://loopback/", transport=ctr, config=ccfg, version=case["version"])
+    for reply in ('{"jsonrpc": "2.0", "id": null, "result": "answered"}', '{"id": null, "result": 7, "error": null}', '{"jsonrpc": "2.0", "id": 1, "result": null}', ""):
+        ctr.reply = reply
+        try:
+            ret = cproxy._notify.anything(1)
+        except Exception as ex:
+            fail("C04/client-notify-raised", "proxy._notify raised %s: %s for the peer's reply %r" % (type(ex).__name__, ex, reply))
+        if ret is not None:
+            fail("C04/client-notify-returned", "proxy._notify returned %r for the peer's reply %r" % (ret, reply))
     return Info(nt=nt, classes=classes, sample={"calls": case["calls"], "batch": case["batch"], "version": case["version"]})
 
 
